@@ -130,6 +130,8 @@ func Run(c *vh.Ctx) {
 			r.runX(cs)
 		case "pl":
 			r.runPL(cs)
+		case "h":
+			r.runH(cs)
 		default:
 			r.runCase(cs, true)
 		}
@@ -154,6 +156,11 @@ func Run(c *vh.Ctx) {
 	if os.Getenv("C06_ONLY") == "pl" { // development: the scalar-payload stream alone
 		n := r.plEnumerate(c.Thorough(), c.Rand, c.N(3000, 60000))
 		c.Note("scalar payloads only: %d cases", n)
+		return
+	}
+	if os.Getenv("C06_ONLY") == "h" { // development: the history stream alone
+		n := r.hEnumerate(c.Thorough(), c.Rand, c.N(1500, 40000))
+		c.Note("history only: %d cases", n)
 		return
 	}
 	if os.Getenv("C06_ONLY") == "x" { // development: the composite-route stream alone
@@ -338,6 +345,10 @@ func resolve(cs *Case) *Case {
 		}
 	case "pl-ref": // {"kind":"pl-ref","shape":"<kind>/<shape>","route":..,"mut":..,"side":..}
 		if t := plByNames(cs.Shape, cs.Route, cs.Mut, cs.Side); t != nil {
+			return t
+		}
+	case "h-ref": // {"kind":"h-ref","hist":"<prefix>@<placement>","shape":"<kind>/<shape>","route":..,"mut":..,"side":..}
+		if t := hByNames(cs.Hist, cs.Shape, cs.Route, cs.Mut, cs.Side); t != nil {
 			return t
 		}
 	case "kv-ref":
